@@ -12,6 +12,10 @@
 // kept healthy (placements with MutPath in paths.go). Second half (containment): one representative mutant per (extractor, error class) is
 // scanned with scalibr.Scanner.Scan next to a healthy file of another extractor.
 //
+// Third part (engine.go): the same confinement demand for every error CLASS an extractor can return, produced
+// by a harmless fake extractor next to a recording one, so that it does not depend on which real extractor
+// happens to return, say, a wrapped context.DeadlineExceeded of its own per-file timeout today.
+//
 // Process architecture: the parent enumerates units (extractor x seed x placement, smallest seed first)
 // and feeds them to 16 worker subprocesses (this binary re-executed with -worker). A worker announces the
 // sequence number of each mutant on a pipe BEFORE calling Extract, runs Extract under recover(), and
@@ -586,6 +590,14 @@ func (c *coord) violation(u unit, key, what string, seq int, stack ...string) {
 		replaySink.mu.Unlock()
 		return
 	}
+	if u.Kind == "engine" {
+		rd := replayData{Kind: "engine", Extractor: "c02/failing", Combo: seq, Mutation: what}
+		if len(stack) > 0 {
+			rd.Stack = stack[0]
+		}
+		c.r.Violation(key, what, rd)
+		return
+	}
 	var data []byte
 	desc := "replay"
 	if u.Data != nil {
@@ -966,10 +978,16 @@ func main() {
 			cunits = append(cunits, u)
 		}
 	}
+	cunits = append(cunits, unit{Kind: "engine", Ex: "python/requirements", ID: len(cunits), Tier: tier})
 	r.Set("error_classes", nClasses)
-	var contained atomic.Int64
+	var contained, engineScans atomic.Int64
 	cdl := time.Now().Add(ev.Pick(r, 50*time.Second, 5*time.Minute))
 	csched := runAll(cunits, cdl, func(u unit, o unitOutcome) {
+		if u.Kind == "engine" {
+			r.Evals.Add(o.evals)
+			engineScans.Add(o.evals)
+			return
+		}
 		if len(o.obs) > 0 {
 			contained.Add(1)
 			r.Evals.Add(1)
@@ -994,6 +1012,7 @@ func main() {
 		r.Cap("deadline: %d of %d containment scans run", csched, len(cunits))
 	}
 	r.Set("containment_scans", contained.Load())
+	r.Set("engine_confinement_scans", engineScans.Load())
 	sort.Strings(c.slow)
 	r.Set("calls_slower_than_5s", c.slow)
 	sort.Slice(c.unitTimes, func(i, j int) bool { return c.unitTimes[i].dur > c.unitTimes[j].dur })
@@ -1033,7 +1052,8 @@ func main() {
 		"Oracle: Extract must return (no panic, no process death, no stack overflow, no RLIMIT_AS 8 GiB abort, answer within the %v watchdog, which covers the parsing of secondary files too; os/rpm runs with its own Timeout knob set to 8 s quick / 30 s thorough). "+
 		"evaluations = Extract calls + containment scans; distinct_nontrivial = distinct (extractor, placement, mutant bytes) whose Extract returned an error or >= 1 package (empty error-free results are not counted). "+
 		"Containment: for each extractor and each error class (first 48 chars of the error text, paths/quoted text/digits removed; first %d classes per extractor in enumeration order) the first mutant of that class is scanned by scalibr.Scanner.Scan next to a healthy requirements.txt (dpkg status for python/requirements): "+
-		"the scan completes, the healthy extractor's packages and status equal those of the scan without the bad file, and the failing extractor's status is Failed or PartiallySucceeded.",
+		"the scan completes, the healthy extractor's packages and status equal those of the scan without the bad file, and the failing extractor's status is Failed or PartiallySucceeded. "+
+		"Engine confinement, independent of what real extractors return today: a harmless extractor returning each of 18 error classes (nil, custom, wrapped/bare context.DeadlineExceeded and context.Canceled while the scan's context is alive, os.ErrDeadlineExceeded, io.EOF/ErrUnexpectedEOF, fs.ErrPermission/ErrNotExist/SkipDir/SkipAll, the memory-limit sentinel, joined errors, errors together with packages) x bad file before/after/on both sides of a good file in the walk x both plugin-list orders is scanned next to a recording extractor: Scan returns, the recording extractor's package and SUCCEEDED status are present, the failing extractor has a status (FAILED/PARTIALLY_SUCCEEDED iff it returned an error).",
 		len(names), len(minimalDocs), b.truncAll, b.lineOps, b.sigmaAll, b.sigmaLine, b.byteOps, b.nullify, b.lineCut, b.caseIns, b.caseLine, b.binFF, c.watchdog, maxClassesPerExtractor)
 	r.Finish(rule, true)
 }
@@ -1060,6 +1080,9 @@ func replay(c *coord, file string) int {
 		kind = "extract"
 	}
 	u := unit{Kind: kind, Ex: rd.Extractor, Seed: rd.Seed, Cand: rd.Cand, Tier: c.tier, Data: &rd.DataB64}
+	if kind == "engine" {
+		u.Ex, u.Seq = "python/requirements", rd.Combo
+	}
 	var got []string
 	rr := &replayRun{}
 	c.r = nil
